@@ -9,6 +9,7 @@ PROPS = {}
 PROPS["C13"] = dict(
     modules=["Essential.Props.C13"],
     gen=gen_asm.c13_cases,
+    py_oracle=gen_asm.c13_pinned_oracle,
     model_is_spec=True,
     exhaustive="all 256 opcode bytes x 0..9 trailing bytes; all 62x62 opcode pairs; 62 short constants; bit-walking immediates",
     rule="cases: every opcode byte with 0..9 trailing bytes, all opcode pairs, bit-walking/boundary immediates, random op "
